@@ -64,7 +64,7 @@ def run(ctx):
                traces_validated_against_impl=len(lines), evaluations=sum(len(l["hist"]) for l in lines), distinct_nontrivial=len(keys),
                rule="every history of peer messages up to the bound over {acceptable / rejected (no common application, missing Origin-Host, inband security) / retransmitted CER, DWR, requests and answers of two applications, "
                     "a base request} on the server side and {success / failing CEA, DWR, application traffic} on the client side (spec/GateGen.tla, exhaustive), with handlers registered by name, by index and as catch-all plus six "
-                    "attempted overrides of CER/CEA/DWR; replayed message by message on a real state machine, stepping when the reader is parked again. non-trivial = contains a CER/CEA outcome and an application message; distinct by history Since extended: application messages with the E bit, a CER from the peer on the client side, a refused CER with a request behind it in the same fragment; a watchdog answer as an application message with a handler registered by name (watchdog off).",
+                    "attempted overrides of CER/CEA/DWR; replayed message by message on a real state machine, stepping when the reader is parked again. non-trivial = contains a CER/CEA outcome and an application message; distinct by history Since extended: application messages with the E bit, a CER from the peer on the client side, a refused CER with a request behind it in the same fragment; a watchdog answer as an application message with a handler registered by name / by index (watchdog off); CEA with result code 2002; a refused CER whose application AVP lacks the M bit; a CEA repeated on another connection of the Client while the dial waits; an application deriving its context on HandshakeNotify.",
                samples=[dict(side=l["side"], hist=l["hist"], obs=l["obs"]) for l in lines[200:len(lines):max(1, len(lines) // 3)]][:3],
                exhaustive=quick, rejected_lines=len(bad), known_finding_hits={k: n for k, (n, _) in v.hits.items()})
     rc = v.finish()
